@@ -340,6 +340,13 @@ func (k Keeper) ResetMetaDuration(ctx sdk.Context, meta *types.Metadata) {
 		}
 	}
 
+	if expiredHeight == 0 {
+		// no completed shard is left to base the lifetime on (force-push before its first shard is
+		// registered, rollback after the previous version expired): the model ends with the current block
+		// unless a shard completed right afterwards extends it. Without this the subtraction below wraps.
+		expiredHeight = uint64(ctx.BlockHeight())
+	}
+
 	newDuration := expiredHeight - meta.CreatedAt
 
 	if meta.Duration != newDuration {
